@@ -39,6 +39,9 @@ class Mg:
     def __repr__(self):
         return "Mg(%d)" % self.idx
 
+    def __len__(self):   # a manager that is also an empty container is falsy - and still a manager
+        return 0 if self.spec.get("falsy") else 1
+
 
 @elaborate_context.register(Mg)
 def _elab_mg(m, ctx):
